@@ -104,7 +104,7 @@ macro_rules! parts {
     }};
 }
 
-static SYS: LockStep = LockStep { property: "C17", probes: true, seed: None, via_feed: false };
+static SYS: LockStep = LockStep { property: "C17", probes: true, seed: None, via_feed: false, merged: false };
 
 /// the core of the save / restore interplay, twice as deep
 fn alpha_core(cfg: &Cfg) -> Vec<Op> {
@@ -133,6 +133,40 @@ fn alpha_core(cfg: &Cfg) -> Vec<Op> {
     ]
 }
 
+/// ... plus: something in the scrollback, a window that only grows taller, and the way back
+/// with the restore in ONE call
+fn alpha_core_one_call(cfg: &Cfg) -> Vec<Op> {
+    let mut v = alpha_core(cfg);
+    v.extend([
+        c(Lf),
+        Op::resize(cfg.cols, cfg.rows + 1),
+        // the way back and the restore in ONE call (no call boundary between them)
+        c(Seq(vec![DecRst(vec![1047]), Decrc])).at(0xF8),
+        c(DecRst(vec![47, 1048])).at(0xF8),
+        c(Seq(vec![DecSet(vec![1047]), Decrc])).at(0xF8),
+        c(Seq(vec![DecRst(vec![1049]), Scorc])).at(0xF8),
+    ]);
+    v
+}
+
+static SYS_MERGED: LockStep = LockStep { property: "C17", probes: false, seed: None, via_feed: false, merged: true };
+
+fn core_one_call_part(tier: Tier) -> Part<'static, LockStep> {
+    Part {
+        name: "save-restore-core-with-merged-calls",
+        sys: &SYS_MERGED,
+        cfgs: match tier {
+            Tier::Quick => cfgs(&[(2, 3)], &[None]),
+            Tier::Thorough => cfgs(&[(2, 3), (3, 3)], &[None]),
+        },
+        alphabet: &alpha_core_one_call,
+        depth: tier.pick(5, 7),
+        seconds: tier.pick(15.0, 900.0),
+        validated: true,
+        nontrivial: Some("lockstep_transitions"),
+    }
+}
+
 fn core_part(tier: Tier) -> Part<'static, LockStep> {
     Part {
         name: "save-restore-core-deep",
@@ -149,7 +183,7 @@ fn core_part(tier: Tier) -> Part<'static, LockStep> {
     }
 }
 
-static SYS_MODES: LockStep = LockStep { property: "C17", probes: false, seed: None, via_feed: false };
+static SYS_MODES: LockStep = LockStep { property: "C17", probes: false, seed: None, via_feed: false, merged: false };
 
 /// Far positions: save and restore at rows / columns around every power-of-two and type
 /// boundary up to beyond 2^17, on screens that have them. Direct part (no reference
@@ -273,6 +307,7 @@ pub fn run(ctx: &Ctx) -> Report {
         run_part(ctx, &mut rep, &shallow_part(ctx.tier));
     }
     run_part(ctx, &mut rep, &core_part(ctx.tier));
+    run_part(ctx, &mut rep, &core_one_call_part(ctx.tier));
     run_part(ctx, &mut rep, &super::sweep::mode_part(&SYS_MODES, ctx.tier));
     super::sweep::mode_number_sweep(ctx, &mut rep, &SYS_MODES);
     far_positions(ctx, &mut rep);
@@ -288,6 +323,9 @@ pub fn replay(ctx: &Ctx, v: &Value) -> bool {
     }
     if v["part"] == "save-restore-core-deep" {
         return replay_part(ctx, &core_part(tier), v);
+    }
+    if v["part"] == "save-restore-core-with-merged-calls" {
+        return replay_part(ctx, &core_one_call_part(tier), v);
     }
     if v["part"] == "far-positions" {
         let mut rep = Report::new();
